@@ -26,6 +26,7 @@ def reader(name):
         "message": [F("v", 1, "message", msg="Leaf")],
         "packed": [F("v", 1, "sint32", "repeated")],
         "repstring": [F("v", 1, "string", "repeated")],
+        "packfix": [F("v", 1, "fixed32", "repeated"), F("w", 2, "double", "repeated")],
         "map": [F("v", 1, "string", "map", key="int32")],
         "oneof": [F("a", 1, "int32", group="g"), F("b", 2, "string", group="g"), F("c", 3, "message", group="g", msg="Leaf")],
         "optional": [F("v", 1, "int32", "optional"), F("w", 2, "message", wraps="string")],
@@ -194,7 +195,7 @@ def h_wiretype(env):
     judge(env, cat, before + sw.tag(f.number, wt) + payload)
 
 
-READERS = ["int32", "sint64", "bool", "fixed32", "double", "string", "bytes", "message", "packed", "repstring", "map", "oneof", "optional", "two", "rep+single"]
+READERS = ["int32", "sint64", "bool", "fixed32", "double", "string", "bytes", "message", "packed", "repstring", "map", "oneof", "optional", "two", "rep+single", "packfix"]
 
 
 def units(tier):
